@@ -8,6 +8,7 @@ walker records branch conditions and *events* (calls, stores, assignments,
 returns) together with the conditions that guard them.  Nothing is executed.
 """
 import ast
+import re
 from fractions import Fraction
 
 from .alg import Poly, Rat, Relations, ONE
@@ -421,6 +422,12 @@ class Walker:
             fname = fn.id
             if fname in st.env and isinstance(st.env[fname], LambdaV):
                 return self.apply_lambda(st.env[fname], args, st)
+            if fname in st.env and isinstance(st.env[fname], Rat) and st.env[fname].single_atom():
+                alias = st.env[fname].single_atom()       # a callable passed as data, e.g. math.sqrt
+                if alias.startswith('math.') and alias[5:] in MATH_FUNCS:
+                    fname = alias[5:]
+                elif re.match(r'^[\w.]+$', alias):
+                    fname = alias
         elif isinstance(fn, ast.Attribute):
             if isinstance(fn.value, ast.Name) and fn.value.id in ('math', 'np', 'numpy') and \
                     fn.value.id not in st.env:
@@ -799,8 +806,12 @@ class Walker:
             if isinstance(s.target, ast.Name):
                 self.bind(s.target, new, st, s, aug=opname)
             else:
-                # store events carry the increment, not the new value
+                # store events carry the increment, not the new value; the forwarded content is the new value
                 self.bind(s.target, v, st, s, aug=opname)
+                if isinstance(s.target, ast.Subscript) and isinstance(new, Rat) and not (new.single_atom() or '').startswith('('):
+                    base = self.ex(s.target.value, st)
+                    if isinstance(base, Rat):
+                        st.env['%s[%s]' % (self.base_text(base), self.idx_text(self.index(s.target.slice, st)))] = new
             yield Outcome('fall', st)
         elif isinstance(s, ast.Expr):
             if isinstance(s.value, ast.Constant):
